@@ -68,6 +68,11 @@ class Interp:
             if e.id in ("True", "False", "None"):
                 return {"True": True, "False": False, "None": None}[e.id]
             raise Unmodelled(f"name `{e.id}` is not part of the model")
+        if isinstance(e, ast.Attribute):
+            k = norm(e)
+            if k in self.env:          # object fields of the model are plain entries keyed by their text (`self.circuit_list`)
+                return self.env[k]
+            raise Unmodelled(f"attribute `{k}` is not part of the model")
         if isinstance(e, ast.BinOp) and type(e.op) in _BIN:
             return self._guard(_BIN[type(e.op)], self.ev(e.left), self.ev(e.right))
         if isinstance(e, ast.UnaryOp):
@@ -165,6 +170,8 @@ class Interp:
         elif isinstance(t, ast.Subscript):
             base = self.ev(t.value)
             self._guard(lambda b, i, val: b.__setitem__(i, val), base, self._index(t.slice), v)
+        elif isinstance(t, ast.Attribute):
+            self.env[norm(t)] = v
         else:
             raise Unmodelled(f"assignment target `{norm(t)[:40]}`")
 
